@@ -18,6 +18,7 @@ def run(ctx):
     RB.title_framing(ctx, "R02.e")
     RK.normalize_assigns_together(ctx, "R02.f")
     RL.reductions_never_shrink(ctx, "R02.f")
+    RL.reduce_equal_length(ctx, "R02.f")
     RL.table_rules(ctx, "R11.a", "R11.b", "R11.c", "R11.d", "R11.g")
     return info("R02.a: every return path of the title builder returns the one String that passed retain(ch != '\\0') after its "
                 "last write; R02.c: the copied slices of hit.title.source tile [0, len) on every path; R09.a: markers are confined to "
